@@ -1,5 +1,5 @@
 """C15 — analytical decompositions rebuild their input within documented bounds (DESIGN 5/C15)."""
-import cmath, itertools, math
+import cmath, itertools, math, os
 from fractions import Fraction
 import numpy as np
 from .. import env, coq, runner, gates
@@ -23,6 +23,15 @@ ROUTINES = {
 
 def fl(x):
     return gates.fl(x)
+
+
+def drop_case_files(shards):
+    """Case files carry the process id in their name (so concurrent runs do not collide); they are removed after evaluation."""
+    for name, _ in shards:
+        try:
+            os.remove(os.path.join(env.BUILD, 'cases', name + '.v'))
+        except OSError:
+            pass
 
 
 def tol_of(atol):
@@ -218,8 +227,11 @@ def canon_stream(ctx, cirq, n):
                 '  v3_eqb (fst t) vout && k8_eqb (bk_ph b) ph && meqb k8_eqb (bk_l0 b) l0 && meqb k8_eqb (bk_l1 b) l1\n'
                 '  && meqb k8_eqb (bk_r0 b) r0 && meqb k8_eqb (bk_r1 b) r1.\n'
                 f'Definition cases := [\n{items}].\nEval vm_compute in failing ok cases.\n')
-        shards.append((f'c15_canon_{ctx.seed}_{s0 // SH}', text))
-    outs = coq.coq_eval_many(shards, workers=8)
+        shards.append((f'c15_canon_{ctx.seed}_{os.getpid()}_{s0 // SH}', text))
+    try:
+        outs = coq.coq_eval_many(shards, workers=8)
+    finally:
+        drop_case_files(shards)
     bad_idx = [si * SH + i for si, out in enumerate(outs) for i in coq.parse_nat_list(coq.parse_evals(out)[0])]
     failing = [good[i] for i in bad_idx] + [c for c in cases if c['lit'] is None]
     for c in failing:
@@ -1215,8 +1227,11 @@ def evaluate(ctx, checks):
         shards = []
         for s0 in range(0, len(exprs), SH):
             text = PRE + 'Definition checks : list bool := [\n' + ';\n'.join(exprs[s0:s0 + SH]) + '].\nEval vm_compute in failing (fun b => b) checks.\n'
-            shards.append((f'c15_{tag}_{ctx.seed}_{s0 // SH}', text))
-        outs = coq.coq_eval_many(shards, workers=14)
+            shards.append((f'c15_{tag}_{ctx.seed}_{os.getpid()}_{s0 // SH}', text))
+        try:
+            outs = coq.coq_eval_many(shards, workers=14)
+        finally:
+            drop_case_files(shards)
         return [si * SH + idx for si, out in enumerate(outs) for idx in coq.parse_nat_list(coq.parse_evals(out)[0])]
 
     failing = [checks[i] for i in run_shards([c[1] for c in checks], 'a')]
